@@ -6,10 +6,15 @@ from concurrent.futures import ThreadPoolExecutor
 import sx
 
 VERIF = '/verif'
-REPO = '/repo'
+# The registered checks always use /repo, /verif/build and /verif/harness.  The BEDV_* variables exist only for
+# bin/mutants, which runs the same checks against private copies of the repository in parallel workers.
+REPO = os.environ.get('BEDV_REPO', '/repo')
 COQ = VERIF + '/coq'
-BUILD = VERIF + '/build'
-RUNNER = BUILD + '/model_runner'
+BUILD = os.environ.get('BEDV_BUILD', VERIF + '/build')
+OUT = os.environ.get('BEDV_OUT', VERIF)                    # evidence/ and replays/ live here
+HARNESS_DIR = os.environ.get('BEDV_HARNESS', VERIF + '/harness')
+SKIP_PROOF = os.environ.get('BEDV_SKIP_PROOF') == '1'
+RUNNER = VERIF + '/build/model_runner'
 CARGO_TARGET = BUILD + '/cargo'
 HARNESS = CARGO_TARGET + '/debug/bedv-harness'
 HARNESS_REL = CARGO_TARGET + '/release/bedv-harness'
@@ -17,7 +22,7 @@ NPROC = 16
 ALLOWED_AXIOMS = []          # nothing: every theorem must be closed under the global context
 FORBIDDEN = r'\b(Admitted|admit|Axiom|Axioms|Parameter|Parameters|Conjecture|Conjectures)\b|Unset\s+Guard|bypass_check|Admit\s+Obligations|type-in-type|impredicative-set|Unset\s+Universe\s+Checking|Unset\s+Positivity'
 
-ENV = dict(os.environ, CARGO_NET_OFFLINE='true', CARGO_TARGET_DIR=CARGO_TARGET, BEDV_SCRATCH=VERIF + '/run/scratch-%d' % os.getpid())
+ENV = dict(os.environ, CARGO_NET_OFFLINE='true', CARGO_TARGET_DIR=CARGO_TARGET, BEDV_SCRATCH=OUT + '/run/scratch-%d' % os.getpid())
 
 
 class Lock:
@@ -36,6 +41,44 @@ def sh(cmd, timeout=None, cwd=None, inp=None, env=None):
     p = subprocess.run(cmd, shell=isinstance(cmd, str), cwd=cwd, input=inp, env=env or ENV,
                        stdout=subprocess.PIPE, stderr=subprocess.STDOUT, timeout=timeout)
     return p.returncode, p.stdout.decode('utf-8', 'replace')
+
+
+# ------------------------------------------------------------------ anchors
+EXTRA_ANCHORS = {   # files a property depends on beyond properties.jsonl's anchors.files
+    'C01': ['src/bed.rs', 'src/bed/bed_trait.rs'], 'C04': ['src/bed.rs'], 'C08': ['src/bed.rs'], 'C12': ['src/bed/score.rs', 'src/bed/strand.rs'],
+    'C11': ['src/intervaltree.rs'], 'C13': ['src/bed.rs'], 'C06': ['src/bed/map.rs', 'src/intervaltree.rs'], 'C15': ['src/extsort/chunk.rs'],
+}
+
+
+def nontest_text(path):
+    try:
+        txt = open(path).read()
+    except OSError:
+        return ''
+    i = txt.find('#[cfg(test)]')
+    return txt if i < 0 else txt[:i]
+
+
+def anchor_files(pid=None):
+    out = {}
+    for l in open(VERIF + '/properties.jsonl'):
+        p = json.loads(l)
+        out[p['id']] = sorted(set(p['anchors']['files'] + EXTRA_ANCHORS.get(p['id'], [])))
+    return out if pid is None else out.get(pid, [])
+
+
+def anchor_hashes():
+    files = sorted(set(f for fs in anchor_files().values() for f in fs))
+    return {f: hashlib.sha256(nontest_text(REPO + '/' + f).encode()).hexdigest() for f in files}
+
+
+def source_changed(pid):
+    try:
+        base = json.load(open(COQ + '/ANCHORS.json'))
+    except OSError:
+        return []
+    cur = anchor_hashes()
+    return [f for f in anchor_files(pid) if base.get(f) != cur.get(f)]
 
 
 # ------------------------------------------------------------------ builds
@@ -64,12 +107,12 @@ def build_runner():
 
 def build_harness(release=False):
     with Lock('cargo'):
-        lock = VERIF + '/harness/Cargo.lock'
+        lock = HARNESS_DIR + '/Cargo.lock'
         if not os.path.exists(lock):
             shutil.copy(REPO + '/Cargo.lock', lock)
         cmd = 'cargo build --offline' + (' --release' if release else '')
         try:
-            rc, out = sh(cmd, cwd=VERIF + '/harness', timeout=1500)
+            rc, out = sh(cmd, cwd=HARNESS_DIR, timeout=1500)
         except subprocess.TimeoutExpired:
             return False, 'cargo build timed out'
         return rc == 0, out
@@ -189,11 +232,16 @@ def _run_side(binary, lines, timeout):
     return outs, p.returncode
 
 
-def run_side(binary, cases, timeout=900, shards=NPROC):
+CASE_TIMEOUT = int(os.environ.get('BEDV_CASE_TIMEOUT', '900'))
+FAST_ABORT = os.environ.get('BEDV_FAST_ABORT') == '1'      # bin/mutants: a shard that hangs is not re-run case by case
+
+
+def run_side(binary, cases, timeout=None, shards=NPROC):
     """Runs cases through a line-oriented binary, sharded; a shard that dies (abort, stack overflow)
     is re-run case by case so that the culprit is identified: its result is `(abort <rc>)`."""
     if not cases:
         return []
+    timeout = timeout or CASE_TIMEOUT
     k = max(1, min(shards, (len(cases) + 19) // 20))
     idxs = [list(range(i, len(cases), k)) for i in range(k)]
     results = [None] * len(cases)
@@ -203,6 +251,10 @@ def run_side(binary, cases, timeout=900, shards=NPROC):
         if outs is not None and len(outs) == len(lines) and rc == 0:
             for i, o in zip(ix, outs):
                 results[i] = o
+            return
+        if FAST_ABORT and outs is None:
+            for i in ix:
+                results[i] = '(abort timeout)'
             return
         for i in ix:     # isolate
             o1, rc1 = _run_side(binary, [cases[i]], timeout)
@@ -332,10 +384,10 @@ def main(prop, argv):
     if tier not in ('quick', 'thorough'):
         tier = 'quick'
     seed = int(os.environ.get('VERIF_SEED', '1') or 1)
-    rundir = '%s/run/%s-%d' % (VERIF, pid, os.getpid())
+    rundir = '%s/run/%s-%d' % (OUT, pid, os.getpid())
     os.makedirs(rundir, exist_ok=True)
-    os.makedirs(VERIF + '/evidence', exist_ok=True)
-    os.makedirs(VERIF + '/replays', exist_ok=True)
+    os.makedirs(OUT + '/evidence', exist_ok=True)
+    os.makedirs(OUT + '/replays', exist_ok=True)
     try:
         rc = _main(prop, pid, tier, seed, replay, rundir, t0)
     finally:
@@ -345,7 +397,7 @@ def main(prop, argv):
 
 
 def write_replay(pid, tag, payload):
-    path = '%s/replays/%s-%s.json' % (VERIF, pid, tag)
+    path = '%s/replays/%s-%s.json' % (OUT, pid, tag)
     json.dump(payload, open(path, 'w'), indent=1)
     return path
 
@@ -353,13 +405,16 @@ def write_replay(pid, tag, payload):
 def _main(prop, pid, tier, seed, replay, rundir, t0):
     violations = []      # (replay_path, suffix)
     if not replay:
-        for f in os.listdir(VERIF + '/replays'):
+        for f in os.listdir(OUT + '/replays'):
             if f.startswith(pid + '-'):
-                os.remove(VERIF + '/replays/' + f)
+                os.remove(OUT + '/replays/' + f)
     known_lines = []
     notes = []
     # 1. proof step
-    pr = proof_step(pid, rundir, tier)
+    if SKIP_PROOF:
+        pr = dict(obligations=0, discharged=0, failures=[], theorems=[], axioms={})
+    else:
+        pr = proof_step(pid, rundir, tier)
     if pr['failures']:
         path = write_replay(pid, 'proof', dict(property=pid, kind='proof-obligation', tier=tier,
                             no_longer_checks=pr['failures'], theorems=pr['theorems']))
@@ -384,7 +439,10 @@ def _main(prop, pid, tier, seed, replay, rundir, t0):
             return 0
     else:
         rng = random.Random(seed * 1000003 + int(hashlib.sha256(pid.encode()).hexdigest()[:8], 16))
-        cases = load_corpus(pid) + list(prop.gen(rng, tier))
+        changed = [] if os.environ.get('BEDV_NO_ESCALATE') == '1' else source_changed(pid)
+        if changed:
+            notes.append('source_changed: %s (quick tier generates the thorough number of cases)' % ', '.join(changed))
+        cases = load_corpus(pid) + list(prop.gen(rng, 'thorough' if changed else tier))
     texts = [c.text for c in cases]
     impl = run_side(HARNESS, texts)
     model = run_side(RUNNER, texts)
@@ -429,7 +487,7 @@ def _main(prop, pid, tier, seed, replay, rundir, t0):
                 return False
             return judge(prop, [t], [a], [b])[0]
         small = c.text
-        if not replay:
+        if not replay and os.environ.get('BEDV_NO_SHRINK') != '1':
             try:
                 small = shrink(c.text, still)
             except Exception as e:
@@ -486,13 +544,13 @@ def finish(prop, pid, tier, seed, t0, pr, cases, mism, violations, known_lines, 
             evaluations=len(cases), distinct_nontrivial=nontriv,
             rule=getattr(prop, 'RULE', ''), samples=samples,
             traces_validated_against_impl=len(cases), disagreements_checked=len(mism),
-            input_distribution=dist, exhaustive=bool(getattr(prop, 'EXHAUSTIVE', {}).get(tier, False)),
+            input_distribution=dist, source_changed=[n for n in notes if n.startswith('source_changed')], exhaustive=bool(getattr(prop, 'EXHAUSTIVE', {}).get(tier, False)),
             profile='debug (overflow checks on; bed-utils opt-level 0)', notes=notes[:20]),
         assumptions=getattr(prop, 'ASSUMPTIONS', []),
         wall_s=round(time.time() - t0, 2), violations=len(violations))
     if pr['obligations'] == 0:
         ev['coverage']['notes'].append('no theorem registered for this property yet')
-    json.dump(ev, open('%s/evidence/%s.json' % (VERIF, pid), 'w'), indent=1)
+    json.dump(ev, open('%s/evidence/%s.json' % (OUT, pid), 'w'), indent=1)
     for k in sorted(set(known_lines)):
         print(k)
     for path, suffix in violations:
